@@ -1308,6 +1308,8 @@ type expr =
 | Hoist2 of nat * expr * nat * expr * expr
 | Hoist1 of nat * expr * expr
 | Hook of expr * expr list
+| Tpl1 of char list * expr * char list
+| Tpl2 of char list * expr * char list * expr * char list
 
 val is_triv : expr -> bool
 
@@ -1328,6 +1330,8 @@ val rw_add : expr -> expr -> nat -> expr * nat
 
 val arg_act : expr -> act
 
+val recv_ok : expr -> bool
+
 val rw_mcall : expr -> char list -> expr -> nat -> expr * nat
 
 val rw_mcall0 : expr -> char list -> nat -> expr * nat
@@ -1337,6 +1341,11 @@ val group_sum : expr -> expr
 val rw_addasg_v : char list -> expr -> nat -> expr * nat
 
 val rw_addasg_m : expr -> char list -> expr -> nat -> expr * nat
+
+val rw_tpl1 : char list -> expr -> char list -> nat -> expr * nat
+
+val rw_tpl2 :
+  char list -> expr -> char list -> expr -> char list -> nat -> expr * nat
 
 val rw :
   (char list -> bool) -> (char list -> bool) -> expr -> nat -> expr * nat
@@ -1348,6 +1357,8 @@ val temp_index : char list -> char list -> nat option
 val plain_arg : node -> node option
 
 val map_opt : ('a1 -> 'a2 option) -> 'a1 list -> 'a2 list option
+
+val quasi_raw : node -> char list option
 
 val abstract : char list -> char list -> nat -> node -> expr option
 
